@@ -79,6 +79,8 @@ func podFieldWrites(p *Prog, fn *ssa.Function, d int, seen map[*ssa.Function]boo
 }
 
 func runC13(c *Ctx) {
+	borrow(c, "O7", "C14", "O1", "addTaskIndex <-> deleteTaskIndex", "an undone operation must leave the job's cached counters as they were")
+
 	p, fx := c.P, c.Fx
 	stmtT := p.TypeObj(pkgFramework, "Statement")
 	if stmtT == nil {
